@@ -105,6 +105,15 @@ def run(tier):
     for i, srcs_ in enumerate([[2, 7], [3, 9], [17, 20]]):
         for mode in ("strict", "lazy"):
             sessions.append({"id": "c12dd-%d-%s" % (i, mode), "text": dtext, "mode": mode, "srcs": srcs_, "globals": {}, "dbg": False})
+    # attribute names that differ in case only, syntax nodes rendered as text (format, join, error messages): no text may depend on
+    # hash order or on where a node lies in memory
+    ctext = ("(identifier) @id {\n  node n\n  attr (n) name = 1, Name = 2, NAME = 3, nAME = (source-text @id)\n  edge n -> n\n  attr (n -> n) w = 1, W = 2\n"
+             "  attr (n) shown = (format \"{} {}\" @id [@id]), joined = (join [@id, @id] \"+\")\n}\n")
+    etext = "(identifier) @id {\n  node n\n  edge n -> @id\n}\n"
+    utext = "(identifier) @id {\n  node n\n  attr (n) v = @id.missing\n}\n"
+    for i, (txt, srcs_) in enumerate([(ctext, [2, 7]), (ctext, [9, 17]), (etext, [2, 3]), (utext, [2, 8])]):
+        for mode in ("strict", "lazy"):
+            sessions.append({"id": "c12c-%d-%s" % (i, mode), "text": txt, "mode": mode, "srcs": srcs_, "globals": {}, "dbg": False})
     # a function that fails on its argument (an invalid regular expression supplied as a global), before and after runs in which
     # the same function succeeds: every repetition fails the same way
     rtext = "global PAT\n(module) @_m {\n  node n\n  attr (n) r = (replace \"abcabc\" PAT \"x\")\n}\n"
